@@ -34,7 +34,11 @@ MANIFEST = {
             '(in, with, let, if, unless, try body, handler, else, finally, '
             'raise body), optionally under an outer bare except and an outer '
             'finally.  Each program is rendered on the real code in one of '
-            'three syntaxes and its trace compared with the reference model.',
+            'three syntaxes and its trace compared with the reference model. '
+            ' Also an exception class with two bases (HA reachable through '
+            'the second base only) against all handler lists, and two '
+            'different classes of the same name raised in successive '
+            'renders of one compiled template.',
     'note': 'Trusted: dtmc/refsem.py (imports nothing from DocumentTemplate; '
             'uses Python try/except/finally itself).  Exceptions are harness '
             'classes raised by namespace callables or by dtml-raise with an '
